@@ -385,7 +385,7 @@ Proof.
     change (pi_definition true (DOperation OpQuery None [] [] sels) p l)
       with (pi_curly (map pi_selection sels) p l).
     change (pi_definition false (DOperation OpQuery None [] [] sels) p l)
-      with (pi_n kw_query :: pi_s :: pi_curly (map pi_selection sels) p l).
+      with (pi_n apk_query :: pi_s :: pi_curly (map pi_selection sels) p l).
     rewrite !pi_toks_app, toks_name_space, toks_curly. reflexivity.
   - (* it does not: both flags give the same items *)
     assert (Heq : pi_definition true first p l = pi_definition false first p l).
